@@ -3,4 +3,7 @@ EXTENDS Mirror
 McHs == {"a", "b", "d"}
 McDyn == {"d"}
 EmitSim == EmitAtLevel(22)
+\* test purpose (breadth-first, tiny bounds): the shortest histories that end with the delivery described by the X: label
+EmitPurpose == (hist # <<>> /\ hist[Len(hist)].act = "Deliver" /\ "X:part-rejected-after-update-part" \in hist[Len(hist)].sit)
+                 => PrintT(<<"BEH", ToJson(hist)>>)
 ====
